@@ -1,0 +1,91 @@
+//go:build verif
+
+// Machine-checked specifications for package snp (comment-only file; read by
+// /verif/bin/hopvc).  The 200-byte permutation state is 25 little-endian lanes.
+
+package snp
+
+// snpLane(a, o, n, j): lane j of the byte string a[o:o+n] zero-padded to 200 bytes
+//@ spec snpLane(a bytearr, o int, n int, j int) uint64 =
+//@     (8*j+0 < n ? uint64(a[o+8*j+0]) : 0) | (8*j+1 < n ? uint64(a[o+8*j+1]) << 8 : 0) | (8*j+2 < n ? uint64(a[o+8*j+2]) << 16 : 0) | (8*j+3 < n ? uint64(a[o+8*j+3]) << 24 : 0) |
+//@     (8*j+4 < n ? uint64(a[o+8*j+4]) << 32 : 0) | (8*j+5 < n ? uint64(a[o+8*j+5]) << 40 : 0) | (8*j+6 < n ? uint64(a[o+8*j+6]) << 48 : 0) | (8*j+7 < n ? uint64(a[o+8*j+7]) << 56 : 0)
+// snpMask(n, j): all-ones over the bytes of lane j that lie below byte position n
+//@ spec snpMask(n int, j int) uint64 =
+//@     (8*j+0 < n ? 255 : 0) | (8*j+1 < n ? 255 << 8 : 0) | (8*j+2 < n ? 255 << 16 : 0) | (8*j+3 < n ? 255 << 24 : 0) |
+//@     (8*j+4 < n ? 255 << 32 : 0) | (8*j+5 < n ? 255 << 40 : 0) | (8*j+6 < n ? 255 << 48 : 0) | (8*j+7 < n ? 255 << 56 : 0)
+//@ spec snpByteAt(s [25]uint64, i int) uint8 = uint8(s[i >> 3] >> (uint64(i & 7) << 3))
+
+//@ spec snpAddBytes(s [25]uint64, x Bytes) [25]uint64
+//@ spec snpAddByte(s [25]uint64, b uint8, o int) [25]uint64
+//@ spec snpXorState(s [25]uint64, t [25]uint64) [25]uint64
+//@ func MinInt(a int, b int) (m int)
+//@   inline
+
+// XOR one byte into the state: only that byte changes.
+//@ func StateAddByte(state *[25]uint64, b byte, offset int)
+//@   property C12
+//@   requires 0 <= offset && offset < 200
+//@   modifies *state
+//@   ensures forall j int :: 0 <= j && j < 25 ==> (*state)[j] == old(*state)[j] ^ (j == offset >> 3 ? uint64(b) << (uint64(offset & 7) << 3) : 0)
+// (abstraction, justified by the clause above)
+//@   defines *state == snpAddByte(old(*state), b, offset)
+
+// Overwrite one byte of the state: that byte becomes b, every other byte - also in the same lane - stays.
+//@ func StateSetByte(state *[25]uint64, b byte, offset int)
+//@   property C12
+//@   requires 0 <= offset && offset < 200
+//@   modifies *state
+//@   ensures forall j int :: 0 <= j && j < 25 ==> (*state)[j] == (j == offset >> 3 ? (old(*state)[j] & ^(uint64(255) << (uint64(offset & 7) << 3))) | (uint64(b) << (uint64(offset & 7) << 3)) : old(*state)[j])
+
+// XOR a byte string into the state: every byte of it (up to 200) is added.
+//@ func StateAddBytes(state *[25]uint64, b []byte)
+//@   property C12
+//@   persite
+//@   modifies *state
+//@   ensures forall j int :: 0 <= j && j < 25 ==> (*state)[j] == old(*state)[j] ^ snpLane(arr(b), off(b), len(b), j)
+// (abstraction, justified by the clause above)
+//@   defines *state == snpAddBytes(old(*state), bytes(b))
+//@   loop 1
+//@     invariant 0 <= stateIdx && stateIdx <= 25 && i == 8 * stateIdx && length == len(b) && (stateIdx > 0 ==> i < length) && length > 0
+//@     invariant forall j int :: 0 <= j && j < 25 ==> (*state)[j] == old(*state)[j] ^ snpLane(arr(b), off(b), i, j)
+//@   loop 2
+//@     invariant 0 <= stateIdx && stateIdx < 25 && 0 <= shift && shift <= 64 && shift & 7 == 0 && i == 8 * stateIdx + (shift >> 3) && length == len(b) && i < length
+//@     invariant forall j int :: 0 <= j && j < 25 ==> (*state)[j] == old(*state)[j] ^ snpLane(arr(b), off(b), i, j)
+
+//@ func StateAddState(state *[25]uint64, b *[25]uint64)
+//@   property C12
+//@   requires state != b
+//@   modifies *state
+//@   ensures forall j int :: 0 <= j && j < 25 ==> (*state)[j] == old(*state)[j] ^ (*b)[j]
+// (abstraction, justified by the clause above)
+//@   defines *state == snpXorState(old(*state), *b)
+//@   loop 1
+//@     invariant 0 <= i && i <= 25 && (forall j int :: 0 <= j && j < i ==> (*state)[j] == old(*state)[j] ^ (*b)[j]) && (forall j int :: i <= j && j < 25 ==> (*state)[j] == old(*state)[j])
+
+// Overwrite the first len(b) bytes (at most 200) of the state with b: those bytes become b, the others stay.
+// (b must not be empty: the function reads b[0] before it looks at the length.)
+//@ func StateSetBytes(state *[25]uint64, b []byte)
+//@   property C12
+//@   persite
+//@   requires len(b) > 0
+//@   modifies *state
+//@   ensures forall j int :: 0 <= j && j < 25 ==> (*state)[j] == (old(*state)[j] & ^snpMask(len(b), j)) | snpLane(arr(b), off(b), len(b), j)
+//@   loop 1
+//@     invariant 0 <= stateIdx && stateIdx <= 25 && i == 8 * stateIdx && length == len(b) && (stateIdx > 0 ==> i < length)
+//@     invariant forall j int :: 0 <= j && j < 25 ==> (*state)[j] == (old(*state)[j] & ^snpMask(i, j)) | snpLane(arr(b), off(b), i, j)
+//@   loop 2
+//@     invariant 0 <= stateIdx && stateIdx < 25 && 0 <= shift && shift <= 64 && shift & 7 == 0 && i == 8 * stateIdx + (shift >> 3) && length == len(b) && i < length
+//@     invariant forall j int :: 0 <= j && j < 25 ==> (*state)[j] == (old(*state)[j] & ^snpMask(i, j)) | snpLane(arr(b), off(b), i, j)
+
+// Copy the first len(dst) state bytes (at most 200) out.
+//@ func StateExtractBytes(state *[25]uint64, dst []byte)
+//@   property C12
+//@   persite
+//@   modifies dst[:]
+//@   ensures forall k int :: 0 <= k && k < len(dst) && k < 200 ==> dst[k] == snpByteAt(*state, k)
+//@   loop 1
+//@     invariant 0 <= stateIdx && stateIdx <= 25 && i == 8 * stateIdx && length == len(dst) && (stateIdx > 0 ==> i <= length)
+//@     invariant forall k int :: 0 <= k && k < i ==> dst[k] == snpByteAt(*state, k)
+//@   loop 2
+//@     invariant 0 <= stateIdx && stateIdx < 25 && 0 <= shift && shift <= 64 && shift & 7 == 0 && i == 8 * stateIdx + (shift >> 3) && length == len(dst) && i <= length
+//@     invariant forall k int :: 0 <= k && k < i ==> dst[k] == snpByteAt(*state, k)
